@@ -204,7 +204,7 @@ func concretise(c *GuardCase) (dec string, inputs [][]byte) {
 
 	case "fixedtab":
 		n := map[string]int{"charset0": 229, "charset1": 166, "charset2": 87, "enc0": 256, "enc1": 256, "sid": 391,
-			"stack": 48, "postmac": 258}[c.X["tab"].(string)] + c.i("d")
+			"stack": 48, "postmac": 258, "nest": 10}[c.X["tab"].(string)] + c.i("d")
 		switch tab := c.X["tab"].(string); tab {
 		case "charset0", "charset1", "charset2":
 			return "cff", [][]byte{mutate.CFFPredef(n, int(tab[7]-'0'), c.i("enc"))}
@@ -219,6 +219,17 @@ func concretise(c *GuardCase) (dec string, inputs [][]byte) {
 				cs = append(cs, mutate.T2Num(1)...)
 			}
 			return "cff", [][]byte{mutate.CFFWithCharstrings([][]byte{append(cs, 14)}, nil, nil)}
+		case "nest":
+			// subr k calls subr k+1, the last one returns: n nested calls below the glyph
+			var subrs [][]byte
+			for k := 0; k < n; k++ {
+				if k == n-1 {
+					subrs = append(subrs, []byte{11})
+				} else {
+					subrs = append(subrs, append(mutate.T2Num(k+1-107), 10, 11))
+				}
+			}
+			return "cff", [][]byte{mutate.CFFWithCharstrings([][]byte{append(mutate.T2Num(-107), 10, 14)}, nil, subrs)}
 		case "postmac":
 			t := &buf{}
 			t.u16(2, 0, 0, 0, 0xFF9C, 50, 0, 0, 0, 0, 0, 0, 0, 0, 0, 0) // version 2.0 header, 32 bytes
@@ -227,6 +238,59 @@ func concretise(c *GuardCase) (dec string, inputs [][]byte) {
 			return "post", [][]byte{t.b}
 		}
 		return "", nil
+
+	case "t2op":
+		var cs []byte
+		for k := 1; k <= c.i("d"); k++ {
+			cs = append(cs, mutate.T2Num(k%9+1)...)
+		}
+		cs = append(cs, mutate.T2Num(c.i("a"))...)
+		cs = append(cs, mutate.T2Num(c.i("b"))...)
+		if op := c.i("op"); op >= 1200 {
+			cs = append(cs, 12, byte(op-1200))
+		} else {
+			cs = append(cs, byte(op))
+			if op == 19 || op == 20 {
+				cs = append(cs, 0xAA, 0x55, 0xAA, 0x55)
+			}
+		}
+		cs = append(cs, 14)
+		// subr 0 returns, subr 1 calls itself (the nesting limit must stop it)
+		subrs := [][]byte{{11}, append(mutate.T2Num(-106), 10, 11)}
+		gsubrs := [][]byte{{11}, append(mutate.T2Num(-106), 29, 11)}
+		return "cff", [][]byte{mutate.CFFWithCharstrings([][]byte{cs}, gsubrs, subrs)}
+
+	case "prodcap":
+		c1, c2, avail := c.i("c1")*4681, c.i("c2")*4681, c.i("avail")
+		if c.X["kind"] == "grow" {
+			// GPOS 5: markClassCount (subtable header) x componentCount (LigatureAttach), table kept short
+			t := gpos5Table(1, 1, 1)
+			put16(t, 56+6, c1)
+			ligArr := 56 + 18 + 4 + 2 + 12
+			put16(t, ligArr+4, c2)
+			return "GPOS", [][]byte{append(t, make([]byte, 2*avail)...)}
+		}
+		// GPOS 4: markClassCount x baseCount (clipped to the size of the base coverage)
+		t := &buf{}
+		t.u16(1, 0, 10, 30, 44)
+		t.u16(1)
+		t.b = append(t.b, "DFLT"...)
+		t.u16(8, 4, 0, 0, 0xFFFF, 1, 0)
+		t.u16(1)
+		t.b = append(t.b, "mark"...)
+		t.u16(8, 0, 1, 0)
+		t.u16(1, 4)
+		t.u16(4, 0, 1, 8)
+		t.u16(1, 12, 18, c1, 28, 40)
+		t.u16(1, 1, 11)
+		end := 100 + c2 - 1
+		if c2 == 0 {
+			end = 100
+		}
+		t.u16(2, 1, 100, end, 0)
+		t.u16(1, 0, 6, 1, 5, 5)
+		t.u16(c2)
+		return "GPOS", [][]byte{append(t.b, make([]byte, 2*avail)...)}
 
 	case "t2store":
 		var cs []byte
